@@ -17,6 +17,7 @@ def _corr_skip(op, impl, model):
 PROP = dict(
     lean_modules=["Octo.Props.C14"],
     required_theorems=["Octo.C14.aggregate_correct", "Octo.C14.add_reports_emptiness", "Octo.C14.add_reports_emptiness_every_step",
+                       "Octo.C14.add_reports_emptiness_all_inputs",
                        "Octo.C14.spec_representation_independent", "Octo.C14.oracle_accepts_iff_valid",
                        "Octo.C14.oracle_multiset_is_net", "Octo.C14.trigger_panics_on_empty", "Octo.C14.C14_partial",
                        "Octo.C14.C14_full_nonfloat", "Octo.C14.C14_refuted", "Octo.C14.raw_sum_flag_refuted"],
